@@ -102,17 +102,27 @@ def gen_stack(rng, max_ops=120):
             else:
                 k = rng.randint(0, 6)
                 syms = [_in_sym(rng, t) for _ in range(k)]
-                form = rng.choice([9, 10, 11])
-                if form == 9:
-                    ops += [9, m, k] + syms
-                    pending += [(m, s) for s in syms]
-                elif form == 10:
-                    ops += [10, m, k] + syms
-                    pending += [(m, s) for s in reversed(syms)]
+                if k and rng.random() < 0.2:
+                    syms[rng.randrange(k)] = _out_sym(rng, t)       # impossible symbol inside a batch
+                insup = [any(e[0] == x for e in t) for x in syms]
+                form = rng.choice([9, 10, 11, 18, 19, 20])
+                if form in (9, 20, 10, 19):
+                    ops += [form, m, k] + syms
+                    order = list(zip(syms, insup)) if form in (9, 20) else list(zip(syms, insup))[::-1]
+                    for x, okx in order:
+                        if not okx:
+                            break
+                        pending.append((m, x))
                 else:
                     f = rng.randint(0, k + 1)
-                    ops += [11, m, k] + syms + [f]
-                    pending += [(m, s) for s in syms[:f]]
+                    ops += [form, m, k] + syms + [f]
+                    items = list(enumerate(zip(syms, insup)))
+                    if form == 18:
+                        items.reverse()
+                    for j, (x, okx) in items:
+                        if j == f or not okx:
+                            break
+                        pending.append((m, x))
         elif r < 0.75:
             m, s = pending.pop()
             # batch pop if several pending entries on top share the model
@@ -122,7 +132,13 @@ def gen_stack(rng, max_ops=120):
             if k > 1:
                 for _ in range(k - 1):
                     pending.pop()
-                ops += [13, m, k]
+                form = rng.choice([13, 21, 22])
+                if form == 22:
+                    # k decodes plus one error item at index f (f in 0..k): k + 1 models in total
+                    f = rng.randint(0, k)
+                    ops += [22, m, k + 1, f]
+                else:
+                    ops += [form, m, k]
             else:
                 ops += [2, m]
         elif r < 0.85:
@@ -358,6 +374,22 @@ def walk(inp, out):
             yield (13, (inp[i + 1], k), out[o:o + k]); i += 3; o += k
         elif op == 17:
             yield (17, inp[i + 1:i + 4], out[o]); i += 4; o += 1
+        elif op == 18:
+            k = inp[i + 2]
+            yield (18, (inp[i + 1], inp[i + 3:i + 3 + k], inp[i + 3 + k]), out[o]); i += 4 + k; o += 1
+        elif op in (19, 20):
+            k = inp[i + 2]
+            yield (op, (inp[i + 1], inp[i + 3:i + 3 + k]), out[o]); i += 3 + k; o += 1
+        elif op == 21:
+            n = out[o]
+            if n < 0 or n > 10 ** 6:
+                raise ValueError
+            yield (21, (inp[i + 1], inp[i + 2]), out[o + 1:o + 1 + n]); i += 3; o += 1 + n
+        elif op == 22:
+            n = out[o]
+            if n < 0 or n > 10 ** 6:
+                raise ValueError
+            yield (22, (inp[i + 1], inp[i + 2], inp[i + 3]), out[o + 1:o + 1 + n]); i += 4; o += 1 + n
         elif op == 15:
             k = inp[i + 1]
             yield (15, inp[i + 2:i + 2 + k], (out[o:o + k], out[o + k:o + 2 * k])); i += 2 + k; o += 2 * k
@@ -408,21 +440,61 @@ def oracle_C01(inp, out):
                     pending.append((m, s))
                 elif res != -1:
                     return "impossible symbol not rejected"
-            elif op in (9, 10):
+            elif op in (9, 10, 19, 20):
+                # batch forms = the per-symbol loop: they stop at the first impossible symbol and keep
+                # what was encoded before it
                 m, syms = args
-                if res != 0:
+                order = list(syms) if op in (9, 20) else list(reversed(syms))
+                ok = [any(e[0] == x for e in ms[m][1]) for x in order]
+                stop = ok.index(False) if False in ok else len(order)
+                if stop < len(order):
+                    if res != -1:
+                        return "batch encode with an impossible symbol returned %d" % res
+                elif res != 0:
                     return "batch encode failed"
-                pending += [(m, s) for s in (syms if op == 9 else reversed(syms))]
-            elif op == 11:
+                pending += [(m, x) for x in order[:stop]]
+            elif op in (11, 18):
                 m, syms, f = args
-                if f < len(syms):
-                    if res != -4:
-                        return "fallible batch did not report the model error"
-                    pending += [(m, s) for s in syms[:f]]
-                else:
-                    if res != 0:
-                        return "fallible batch failed"
-                    pending += [(m, s) for s in syms]
+                items = [(j, x) for j, x in enumerate(syms)]
+                if op == 18:
+                    items.reverse()
+                done = []
+                expect = 0
+                for j, x in items:
+                    if j == f:
+                        expect = -4
+                        break
+                    if not any(e[0] == x for e in ms[m][1]):
+                        expect = -1
+                        break
+                    done.append(x)
+                if res != expect:
+                    return "fallible batch returned %d, expected %d" % (res, expect)
+                pending += [(m, x) for x in done]
+            elif op == 21:
+                m, k = args
+                if len(res) != k:
+                    return "decode_symbols over %d models yielded %d items" % (k, len(res))
+                for j in range(k):
+                    if not pending or pending[-1][0] != m:
+                        return None
+                    pm, x = pending.pop()
+                    if res[j] != x:
+                        return "batch decode returned %d, expected %d" % (res[j], x)
+            elif op == 22:
+                m, k, f = args
+                if len(res) != k:
+                    return "try_decode_symbols over %d models yielded %d items" % (k, len(res))
+                for j in range(k):
+                    if j == f:
+                        if res[j] != -4000:
+                            return "try_decode_symbols did not report the model error"
+                        continue
+                    if not pending or pending[-1][0] != m:
+                        return None
+                    pm, x = pending.pop()
+                    if res[j] != x:
+                        return "fallible batch decode returned %d, expected %d" % (res[j], x)
             elif op == 2:
                 # a pop of something that was never pushed, or with another model, leaves the
                 # stack discipline: the property says nothing about the rest of such a history
@@ -782,6 +854,14 @@ def op_slices(inp):
         elif op == 15:
             n = 2 + inp[i + 1]
         elif op == 17:
+            n = 4
+        elif op == 18:
+            n = 4 + inp[i + 2]
+        elif op in (19, 20):
+            n = 3 + inp[i + 2]
+        elif op == 21:
+            n = 3
+        elif op == 22:
             n = 4
         else:
             break
